@@ -122,8 +122,9 @@ PsValid(c, m, pid, lq, pv) == ModeOk(c, m) /\ (pid >= 1000 \/ pid \in 0..7) /\ V
 PsApply(c, m, pid, lq) == [c EXCEPT !.ops = @ \o <<OpPs(m + 1, pid)>> \o LossTail(<<m + 1>>, lq)]
 LossValid(c, m, q, pv) == ModeOk(c, m) /\ ValOk(q, 0..2, pv)
 LossApply(c, m, q) == [c EXCEPT !.ops = Append(@, OpLoss(m + 1, q))]
-BarValid(c, ms) == \A k \in 1..Len(ms) : ModeOk(c, ms[k])
-BarApply(c, ms) == [c EXCEPT !.ops = Append(@, OpBar([k \in 1..Len(ms) |-> ms[k] + 1]))]
+\* barrier(modes): <<99>> stands for modes = None (all user modes); <<>> is the empty list (a barrier on no mode)
+BarValid(c, ms) == ms = <<99>> \/ \A k \in 1..Len(ms) : ModeOk(c, ms[k])
+BarApply(c, ms) == [c EXCEPT !.ops = Append(@, OpBar(IF ms = <<99>> THEN [k \in 1..c.nu |-> k] ELSE [k \in 1..Len(ms) |-> ms[k] + 1]))]
 \* swaps given as two equally long sequences of API modes (dict keys, dict values)
 SwapsValid(c, from, to) ==
    /\ Len(from) = Len(to)
